@@ -8,11 +8,15 @@ SRC = 'core/src/language/go.rs'
 PRELUDE = r'''
 // ---------- T7 stubs (field types this unit only stores)
 #[verifier::external_body] #[verifier::reject_recursive_types(K)] pub struct BTreeSet<K> { _k: ::core::marker::PhantomData<K> }
+impl BTreeSet<String> {
+    /// the package names recorded for the import block
+    pub uninterp spec fn names(&self) -> Set<Seq<char>>;
+}
 impl Go {
-    /// stub for Go::add_import (records a package for the import block - C12's domain): leaves the translation settings alone
+    /// stub for Go::add_import (`self.imports.insert(name.to_string())`): records the package for the import block, nothing else changes
     #[verifier::external_body]
     fn add_import(&mut self, name: &str)
-        ensures final(self).cfg() == old(self).cfg()
+        ensures final(self).cfg() == old(self).cfg(), final(self).imports.names() == old(self).imports.names().insert(name@),
     { unimplemented!() }
 }
 '''
@@ -31,7 +35,15 @@ UNIT = F.make_unit('fmt_go', 'Go', SRC, 'Go',
                    PRELUDE, SPECIAL,
                    overrides={'format_generic_parameters': (F.generic_parameters('[', ']', join_text='parameters.join('), ('fmt',))},
                    extra_items=[Item('is_vec', F.RT, ['impl RustType {', 'fn is_vec'], IS_VEC, wrap=('impl RustType {\n', '\n}\n'))],
-                   trusted_extra=['stub: Go::add_import leaves type_mappings / no_pointer_slice unchanged (import bookkeeping is C12\'s domain)'])
+                   trusted_extra=['stub: Go::add_import records the package name in `imports` and changes nothing else'],
+                   x12={
+                       'frame': '/*C12: recorded imports are never lost*/ old(self).imports.names().subset_of(final(self).imports.names()),',
+                       'ty': '/*C12: a type expression that prints `time.Time` has recorded the import of "time"*/ (r is Ok && reaches(old(self).cfg(), *ty, Kind::DateTime)) ==> final(self).imports.names().contains("time"@),',
+                       'gen': '(r is Ok && reaches_any(old(self).cfg(), *base, parameters@, Kind::DateTime)) ==> final(self).imports.names().contains("time"@),',
+                       'special': '(r is Ok && reaches_special(old(self).cfg(), *special_ty, Kind::DateTime)) ==> final(self).imports.names().contains("time"@),',
+                       'inv': 'old(self).imports.names().subset_of(self.imports.names()), forall|k: int| 0 <= k < it.index@ ==> (reaches(c0, #[trigger] parameters@[k], Kind::DateTime) ==> self.imports.names().contains("time"@)),',
+                   })
+UNIT.spec_files = list(UNIT.spec_files) + ['helpers.rs']
 UNIT.functions.append('RustType::is_vec')
 
 
